@@ -215,6 +215,18 @@ func genTypesCase(r *Rng) Case {
 	for i := 0; i < 8; i++ {
 		add(smallVal(r, base))
 	}
+	// lexical forms: random sequences of up to four tokens over signs, digits, the dot, blanks and letters
+	// (every short sequence is reached over the cases of a run)
+	for i := 0; i < 24; i++ {
+		n := 1 + r.Intn(4)
+		var sb strings.Builder
+		for j := 0; j < n; j++ {
+			sb.WriteString(pick(r, []string{"+", "-", "0", "1", "5", "9", ".", " ", "e", "x", "true", "a"}))
+		}
+		if v := sb.String(); !(strings.HasPrefix(base, "uint") && strings.HasPrefix(v, "-")) {
+			add(v)
+		}
+	}
 	if base == "string" {
 		for _, n := range []int{0, 1, 2, 3, 5, 10, 20, 49, 50} {
 			add(strings.Repeat("x", n))
